@@ -7,7 +7,8 @@ from .h_payload import rich_item, rich_story
 PAYLOAD_OPS = ('roStoryAppend', 'roStoryInsert', 'roStoryReplace', 'EAStoryInsert', 'EAStoryReplace', 'EAStoryInsert-end',
                'roStoryInsert-last', 'roStoryInsert-dup', 'EAStoryInsert-dup',
                'roItemInsert', 'roItemReplace', 'EAItemInsert', 'EAItemReplace', 'roMetadataReplace',
-               'roDelete', 'roStorySend', 'roReplace')
+               'roDelete', 'roStorySend', 'roReplace', 'roReplace-skeleton', 'roStoryReplace-skeleton',
+               'roItemInsert-blank-id', 'EAItemReplace-blank-id', 'roStoryAppend-blank-id')
 
 
 def fresh_ro(ids, item_ids, c0):
@@ -52,6 +53,17 @@ def make_msg(op, ids, item_ids, n0, c0, c1, n1=None):
                             slug=c1, pre=[B.timing_block(dur='9')])
     if op == 'roReplace':
         return M.ro_replace([T('roSlug', c1), rich_story(n0, c0, c1), rich_story(ids[0], c0, c1)])
+    if op == 'roReplace-skeleton':
+        # the usual roReplace: story skeletons (ID and slug only) under the IDs the running order already has
+        return M.ro_replace([T('roSlug', c1), B.story(ids[1], slug=c1), B.story(ids[0], slug=c1), rich_story(n0, c0, c1)])
+    if op == 'roStoryReplace-skeleton':
+        return M.story_replace(ids[0], [B.story(ids[0], slug=c1), B.story(n0, slug=c1, timing=B.timing_block(dur='4'))])
+    if op == 'roItemInsert-blank-id':
+        return M.item_insert(ids[0], item_ids[0], [rich_item(None, c0, c1), rich_item(n0, c0, c1)])
+    if op == 'EAItemReplace-blank-id':
+        return M.ea_item_replace(ids[0], item_ids[0], [rich_item(n0, c0, c1), rich_item(None, c0, c1)])
+    if op == 'roStoryAppend-blank-id':
+        return M.story_append([rich_story(None, c0, c1), rich_story(n0, c0, c1)])
     raise ValueError(op)
 
 
@@ -64,9 +76,10 @@ def later_edit(op, edit, ids, item_ids, n0, c1, second=False):
     """A later message that touches what the first one carried."""
     carried_story = n0 if op in ('roStoryAppend', 'roStoryInsert', 'roStoryReplace', 'EAStoryInsert', 'EAStoryInsert-end',
                                  'roStoryInsert-last', 'EAStoryReplace', 'roReplace', 'roStoryInsert-dup',
-                                 'EAStoryInsert-dup') else ids[0]
+                                 'EAStoryInsert-dup', 'roReplace-skeleton', 'roStoryAppend-blank-id') else ids[0]
     inner = 'ci1' if second else 'ci0'
-    if op in ('roItemInsert', 'roItemReplace', 'EAItemInsert', 'EAItemReplace'):
+    if op in ('roItemInsert', 'roItemReplace', 'EAItemInsert', 'EAItemReplace', 'roItemInsert-blank-id',
+              'EAItemReplace-blank-id'):
         inner = n0 if not second else item_ids[-1]
     if edit == 'item-delete':
         return M.item_delete(carried_story, [inner])
